@@ -204,6 +204,10 @@ def check_pair(prog: Program, res: Result) -> None:
 
 
 def check(prog: Program, res: Result) -> None:
+    from . import _state as _st2
+    _st2.check_no_stale_loop_var(prog, res, "C10-state", ["sleap_nn.tracking"])
+    from . import _state
+    _state.check_no_cross_call_state(prog, res, "C10-state", ["sleap_nn.tracking.tracker:Tracker.get_features", "sleap_nn.tracking.tracker:Tracker.update_candidates", "sleap_nn.tracking.tracker:Tracker.get_scores", "sleap_nn.tracking.tracker:Tracker.scores_to_cost_matrix", "sleap_nn.tracking.tracker:Tracker.assign_tracks", "sleap_nn.tracking.tracker:FlowShiftTracker.update_candidates", "sleap_nn.tracking.tracker:FlowShiftTracker.get_shifted_instances_from_prv_frames"], floor=7)
     from . import _parallel
     _parallel.check_parallel_index(prog, res, "C10-index")
     from . import _iou
